@@ -419,8 +419,11 @@ def parcor_stable(filt):
     Tests filter stability with Line Spectral Frequencies (LSF) values.
 
   """
+  den = filt.denpoly
+  if den[0] != 1: # Reflection coefficients are those of the monic polynomial
+    den = den / den[0]
   try:
-    return all(abs(k) < 1 for k in parcor(ZFilter(filt.denpoly)))
+    return all(abs(k) < 1 for k in parcor(ZFilter(den)))
   except ParCorError:
     return False
 
